@@ -549,3 +549,363 @@ class _db_get_field_values(Contract):
 
 
 forward("get_field_values", _db_get_field_values, LFldV, dict(field_key=TStr))
+
+
+# ---------------------------------------------------------------------------------------------- tag values
+TagVals = TDict(TStr, TSet(TagV))
+LStrKeys = TList(TStr)
+
+
+def tag_values_spec(D, n, P, m, tag_keys, asked, dom=None, has=None, partial=None, listed=None):
+    """D maps tag keys to the set of values stored under them among the selected points.
+    asked (a Bool): specific keys were requested - then D has exactly those keys (also the ones no point carries);
+    otherwise D has exactly the keys some selected point carries.
+    dom/has: how membership is read off the result (a dict of sets by default);
+    partial=(j0, seen): the points are 0..n-1 plus point j0, which counts only for the keys k with seen(k) (a scan in progress)."""
+    k = z3.Const(fresh_name("k"), _str)
+    v = z3.Const(fresh_name("v"), sort_of(TagV))
+    i, j = z3.Int(fresh_name("i")), z3.Int(fresh_name("j"))
+    dom = dom or (lambda kk: z3.Select(d_dom(D), kk))
+    has = has or (lambda kk, vv: z3.Select(z3.Select(d_val(D), kk), vv))
+    sel = lambda p: selm(m, p)
+    if partial is None:
+        counts = lambda ii, kk: z3.And(0 <= ii, ii < n)
+    else:
+        j0, seen = partial
+        counts = lambda ii, kk: z3.Or(z3.And(0 <= ii, ii < n), z3.And(ii == j0, seen(kk)))
+    carried = lambda kk: z3.Exists([i], z3.And(S.Tr(i), counts(i, kk), sel(P(i)), has_tag(P(i), kk)), patterns=[S.Tr(i)])
+    listed = listed or (lambda kk: z3.Exists([j], z3.And(S.Tr(j), 0 <= j, j < l_len(tag_keys), l_at(tag_keys, j) == kk), patterns=[S.Tr(j)]))
+    return [
+        ("keys_only", forall([k], z3.Implies(dom(k), z3.If(asked, listed(k), carried(k))), patterns=[dom(k)])),
+        ("every_requested_key", forall([j], z3.Implies(z3.And(asked, 0 <= j, j < l_len(tag_keys)), dom(l_at(tag_keys, j))), patterns=[l_at(tag_keys, j)])),
+        ("every_carried_key", forall([i, k], z3.Implies(z3.And(z3.Not(asked), counts(i, k), sel(P(i)), has_tag(P(i), k)), dom(k)), patterns=[has_tag(P(i), k)])),
+        ("values_only", forall([k, v], z3.Implies(z3.And(dom(k), has(k, v)),
+                                                   z3.Exists([i], z3.And(S.Tr(i), counts(i, k), sel(P(i)), has_tag(P(i), k), tag(P(i), k) == v), patterns=[S.Tr(i)])), patterns=[has(k, v)])),
+        ("every_value", forall([i, k], z3.Implies(z3.And(counts(i, k), sel(P(i)), has_tag(P(i), k), dom(k)), has(k, tag(P(i), k))), patterns=[has_tag(P(i), k)])),
+    ]
+
+
+@contract("tinyflux.index.Index.get_tag_values")
+class _ix_get_tag_values(Contract):
+    """C07: for each requested tag key (or, when none is requested, each tag key carried by a selected point) exactly the set of values the
+    selected points store under it; requested keys nobody carries map to the empty set"""
+    params = dict(self=IX, tag_keys=LStrKeys, measurement=OStrU)
+    defaults = dict(tag_keys=lambda ex: ex.empty_of(LStrKeys), measurement=lambda ex: Val(OStrU, o_none(OStrU)))
+    ret = TagVals
+    modifies = ()
+    locals = dict(rst=TagVals, gd0=TagVals)
+    ghost_vars = ("gd0",)
+    ghost_init = "gd0 = {}"
+    ghost_after = [("rst = {i: set({}) for i in tag_keys}", "gd0 = rst")]
+
+    @staticmethod
+    def requires(c):
+        return repr_self(c.self, parts=("num", "meas", "tags"))
+
+    @staticmethod
+    def lemmas(c):
+        # Tr is universally true: marking the positions in the posting lists gives the existential clauses a term to match on
+        T = c.self.t["_tags"].t
+        k = z3.Const(fresh_name("k"), _str)
+        v = z3.Const(fresh_name("v"), sort_of(TagV))
+        j = z3.Int(fresh_name("j"))
+        lst = z3.Select(d_val(z3.Select(d_val(T), k)), v)
+        return [("positions_marked", forall([k, v, j], S.Tr(l_at(lst, j)), patterns=[l_at(lst, j)])),
+                ("first_position_marked", forall([k, v], S.Tr(l_at(lst, 0)), patterns=[z3.Select(d_dom(z3.Select(d_val(T), k)), v)]))]
+
+    # ---- vocabulary shared by the eight loop invariants
+    @staticmethod
+    def _v(c):
+        n, P = view_of(c.self)
+        T = c.self.t["_tags"].t
+        D = c.rst.t
+        m = c.measurement
+        o = type("V", (), {})()
+        o.n, o.P, o.T, o.D, o.m = n, P, T, D, m
+        o.k = z3.Const(fresh_name("k"), _str)
+        o.v = z3.Const(fresh_name("v"), sort_of(TagV))
+        o.i = z3.Int(fresh_name("i"))
+        o.domT = lambda kk: z3.Select(d_dom(T), kk)
+        o.inner = lambda kk: z3.Select(d_val(T), kk)
+        o.idom = lambda kk, vv: z3.Select(d_dom(o.inner(kk)), vv)
+        o.dom = lambda kk: z3.Select(d_dom(D), kk)
+        o.has = lambda kk, vv: z3.Select(z3.Select(d_val(D), kk), vv)
+        o.sel = lambda p: selm(m, p)
+        o.point = lambda kk, vv: z3.Exists([o.i], z3.And(S.Tr(o.i), 0 <= o.i, o.i < n, o.sel(P(o.i)), has_tag(P(o.i), kk), tag(P(o.i), kk) == vv), patterns=[S.Tr(o.i)])
+        o.carried = lambda kk: z3.Exists([o.i], z3.And(S.Tr(o.i), 0 <= o.i, o.i < n, o.sel(P(o.i)), has_tag(P(o.i), kk)), patterns=[S.Tr(o.i)])
+        return o
+
+    @staticmethod
+    def _inv(c, outer, inner, asked, filtered):
+        """invariant of the outer loop (inner=None) or of the inner loop of one of the four branches"""
+        o = _ix_get_tag_values._v(c)
+        lo = c.loop(outer)
+        k, v, i = o.k, o.v, o.i
+        idx_o = lo.extra["idx"]
+        if inner is None:
+            done = lambda kk: z3.And(o.domT(kk), idx_o(kk) < lo.t)
+            cur = None
+        else:
+            li = c.loop(inner)
+            kk0 = c.tag_key.t
+            done = lambda kk: z3.And(o.domT(kk), idx_o(kk) < lo.t)  # the current key has idx == lo.t: not yet `done`
+            cur = (kk0, li.extra["idx"], li.t)
+        out = []
+        if asked:
+            out.append(("keys_as_requested", d_dom(o.D) == d_dom(c.gd0.t)))
+        else:
+            extra = (lambda kk: kk == cur[0]) if (cur and not filtered) else (lambda kk: z3.BoolVal(False))
+            if not filtered:
+                out.append(("keys_so_far", forall([k], o.dom(k) == z3.Or(done(k), extra(k)), patterns=[o.dom(k)])))
+            else:
+                out.append(("keys_only_carried", forall([k], z3.Implies(o.dom(k), z3.And(z3.Or(done(k), k == cur[0]) if cur else done(k), o.carried(k))), patterns=[o.dom(k)])))
+        # values present are values of selected points
+        out.append(("values_only", forall([k, v], z3.Implies(z3.And(o.dom(k), o.has(k, v)), o.point(k, v)), patterns=[o.has(k, v)])))
+        # keys not yet reached hold nothing
+        out.append(("untouched_keys_empty", forall([k, v], z3.Implies(z3.And(o.dom(k), z3.Not(done(k)), (k != cur[0]) if cur else z3.BoolVal(True)), z3.Not(o.has(k, v))), patterns=[o.has(k, v)])))
+        # finished keys hold every value of the selected points (and, when no keys were requested, are present)
+        want = (lambda kk: o.dom(kk)) if asked else (lambda kk: z3.BoolVal(True))
+        out.append(("finished_keys_complete", forall([i, k], z3.Implies(z3.And(done(k), want(k), 0 <= i, i < o.n, o.sel(o.P(i)), has_tag(o.P(i), k)),
+                                                                     z3.And(o.dom(k), o.has(k, tag(o.P(i), k)))), patterns=[has_tag(o.P(i), k)])))
+        out += _ix_get_tag_values.lemmas(c)  # (trivially true markers; carried in the invariant so that the loop obligations have them too)
+        if cur:
+            kk0, idx_i, ti = cur
+            out.append(("outer_key", z3.And(o.domT(kk0), idx_o(kk0) == lo.t)))
+            out.append(("current_key_so_far", forall([i], z3.Implies(z3.And(want(kk0), 0 <= i, i < o.n, o.sel(o.P(i)), has_tag(o.P(i), kk0), idx_i(tag(o.P(i), kk0)) < ti),
+                                                                   z3.And(o.dom(kk0), o.has(kk0, tag(o.P(i), kk0)))), patterns=[has_tag(o.P(i), kk0)])))
+        return out
+
+    loops = {
+        0: dict(inv=lambda c: _ix_get_tag_values._inv(c, 0, None, False, False)), 1: dict(inv=lambda c: _ix_get_tag_values._inv(c, 0, 1, False, False)),
+        2: dict(inv=lambda c: _ix_get_tag_values._inv(c, 2, None, False, True)), 3: dict(inv=lambda c: _ix_get_tag_values._inv(c, 2, 3, False, True)),
+        # (ordinals follow pyvc's numbering, tools/loops.py: 4 and 7 are the loops of the third branch, 5 and 6 those of the fourth)
+        4: dict(inv=lambda c: _ix_get_tag_values._inv(c, 4, None, True, False)), 7: dict(inv=lambda c: _ix_get_tag_values._inv(c, 4, 7, True, False)),
+        5: dict(inv=lambda c: _ix_get_tag_values._inv(c, 5, None, True, True)), 6: dict(inv=lambda c: _ix_get_tag_values._inv(c, 5, 6, True, True)),
+    }
+
+    @staticmethod
+    def ensures(c):
+        n, P = view_of(c.self)
+        asked = l_len(c.tag_keys.t) > 0
+        return tag_values_spec(c.result.t, n, P, c.measurement, c.tag_keys.t, asked)
+
+
+TagValLists = TDict(TStr, TList(TagV))
+
+
+@contract("tinyflux.database.TinyFlux.get_tag_values")
+class _db_get_tag_values(Contract):
+    """C07: for each requested tag key (or each key carried by a stored point of the measurement) the duplicate-free list of exactly the values stored
+    under it, strings ascending and None last - the same via a valid index and via a scan"""
+    params = dict(self=DB, tag_keys=LStrKeys, measurement=OStrU)
+    defaults = dict(tag_keys=lambda ex: ex.empty_of(LStrKeys), measurement=lambda ex: Val(OStrU, o_none(OStrU)))
+    ret = TagValLists
+    modifies = ("_index",)
+    theories = ()
+    raises = db_c.READ_RAISES
+    witness_sig = {"lpos": ([TStr, TagV], TInt)}
+    locals = dict(rst=TagVals, relevant_tags=SStr)
+
+    @staticmethod
+    def requires(c):
+        return dbinv(c.self)
+
+    @staticmethod
+    def witness(c):
+        ss = c.ghost.get("last_sorted_set")
+        return {"lpos": (lambda k, v: ss["posf"](k, v))}
+
+    @staticmethod
+    def _scan(c, n, partial=None):
+        items = c.self.t["_storage"].t["items"].t
+        asked = l_len(c.tag_keys.t) > 0
+        rel = c.relevant_tags.t
+        return tag_values_spec(c.rst.t, n, lambda i: dec(l_at(items, i)), c.measurement, c.tag_keys.t, asked, partial=partial, listed=lambda kk: z3.Select(rel, kk))
+
+    @staticmethod
+    def _rel(c):
+        """relevant_tags is empty exactly when no key was requested"""
+        rel = c.relevant_tags.t
+        x = z3.Const(fresh_name("x"), _str)
+        asked = l_len(c.tag_keys.t) > 0
+        return [("relevant_iff_asked", z3.And(z3.Implies(asked, z3.Select(rel, l_at(c.tag_keys.t, 0))), z3.Implies(z3.Not(asked), forall([x], z3.Not(z3.Select(rel, x)), patterns=[z3.Select(rel, x)]))))]
+
+    @staticmethod
+    def _inv0(c):
+        return _db_get_tag_values._scan(c, c.loop(0).t) + _db_get_tag_values._rel(c)
+
+    @staticmethod
+    def _inv1(c):
+        lo, li = c.loop(0), c.loop(1)
+        items = c.self.t["_storage"].t["items"].t
+        p = dec(l_at(items, lo.t))
+        seen = lambda kk: z3.And(has_tag(p, kk), li.extra["idx"](kk) < li.t)
+        return _db_get_tag_values._scan(c, lo.t, partial=(lo.t, seen)) + _db_get_tag_values._rel(c) + [("current_point", z3.And(c._point.t == p, lo.t < l_len(items), selm(c.measurement, p), S.Tr(lo.t)))]
+
+    loops = {0: dict(inv=lambda c: _db_get_tag_values._inv0(c)), 1: dict(inv=lambda c: _db_get_tag_values._inv1(c))}
+
+    @staticmethod
+    def ensures(c):
+        items = c.old.self.t["_storage"].t["items"].t
+        R = c.result.t
+        lpos = c.wit["lpos"]
+        asked = l_len(c.tag_keys.t) > 0
+        lst = lambda kk: z3.Select(d_val(R), kk)
+        has = lambda kk, vv: z3.And(0 <= lpos(kk, vv), lpos(kk, vv) < l_len(lst(kk)), l_at(lst(kk), lpos(kk, vv)) == vv)
+        k = z3.Const(fresh_name("k"), _str)
+        a, b = z3.Int(fresh_name("a")), z3.Int(fresh_name("b"))
+        lt = lambda x, y: z3.Or(z3.And(o_is_some(x), o_is_none(y)), z3.And(o_is_some(x), o_is_some(y), S.str_lt(o_val(x), o_val(y))))
+        return tag_values_spec(R, l_len(items), lambda i: dec(l_at(items, i)), c.measurement, c.tag_keys.t, asked, has=has) + [
+            ("each_list_ascending_none_last_no_duplicates", forall([k, a, b], z3.Implies(z3.And(z3.Select(d_dom(R), k), 0 <= a, a < b, b < l_len(lst(k))), lt(l_at(lst(k), a), l_at(lst(k), b))),
+                                                                   patterns=[z3.MultiPattern(l_at(lst(k), a), l_at(lst(k), b))])),
+        ] + dbinv(c.self) + db_c.storage_unchanged(c)
+
+
+forward("get_tag_values", _db_get_tag_values, TagValLists, dict(tag_keys=LStrKeys), dict(tag_keys=lambda ex: ex.empty_of(LStrKeys)))
+
+
+# ---------------------------------------------------------------------------------------------- iteration, per-measurement length and all()
+from .measurement_c import MS
+from .db_model import in_stable_time_order
+
+
+def name_only(name):
+    """the per-measurement views compare the measurement with the handle's name directly (`== self._name`)"""
+    return lambda p: meas(p) == name
+
+
+@contract("tinyflux.database.TinyFlux.__iter__")
+class _db_iter(Contract):
+    """C07: iteration yields every stored point once, in storage order (a generator read as the list it yields)"""
+    params = dict(self=DB)
+    ret = LPt
+    modifies = ()
+    raises = {"ReadFault": staticmethod(lambda c: db_c.read_fault(c))}
+
+    @staticmethod
+    def requires(c):
+        return dbinv(c.self)
+
+    @staticmethod
+    def _spec(c, R, n):
+        items = c.self.t["_storage"].t["items"].t
+        a = z3.Int(fresh_name("a"))
+        return [("length", l_len(R) == n), ("elements", forall([a], z3.Implies(z3.And(0 <= a, a < n), l_at(R, a) == dec(l_at(items, a))), patterns=[l_at(R, a)]))]
+
+    loops = {0: dict(inv=lambda c: _db_iter._spec(c, c._yielded.t, c.loop(0).t))}
+
+    @staticmethod
+    def ensures(c):
+        return _db_iter._spec(c, c.result.t, l_len(c.self.t["_storage"].t["items"].t))
+
+
+@contract("tinyflux.measurement.Measurement.__iter__")
+class _ms_iter(Contract):
+    """C07/C10: iterating a measurement yields exactly the stored points of that name, in storage order"""
+    params = dict(self=MS)
+    ret = LPt
+    modifies = ()
+    raises = {"ReadFault": staticmethod(lambda c: dict(when=z3.BoolVal(True), exact=False))}
+    witness_sig = {"src": ([TInt], TInt)}
+    ghost_vars = ("gsrc",)
+    ghost_init = "gsrc = []"
+    ghost_after = [("yield self._db._storage._deserialize_storage_item(item)", "gsrc.append(_t)")]
+    locals = dict(gsrc=TList(TInt))
+
+    @staticmethod
+    def requires(c):
+        return dbinv(c.self.t["_db"])
+
+    @staticmethod
+    def _spec(c, R, n, src):
+        items = c.self.t["_db"].t["_storage"].t["items"].t
+        nm = c.self.t["_name"].t
+        return in_insertion_order(R, l_len(R), n, lambda i: dec(l_at(items, i)), Val(OStrU, o_none(OStrU)), lambda p: p, src, None, sel=name_only(nm))
+
+    loops = {0: dict(inv=lambda c: [("ghost_len", l_len(c.gsrc.t) == l_len(c._yielded.t))] + _ms_iter._spec(c, c._yielded.t, c.loop(0).t, lambda a: l_at(c.gsrc.t, a)))}
+
+    @staticmethod
+    def witness(c):
+        return {"src": lambda a: l_at(c.gsrc.t, a)}
+
+    @staticmethod
+    def ensures(c):
+        return _ms_iter._spec(c, c.result.t, l_len(c.self.t["_db"].t["_storage"].t["items"].t), c.wit["src"])
+
+
+@contract("tinyflux.measurement.Measurement.__len__")
+class _ms_len(Contract):
+    """C07/C10: len(measurement) is the number of stored points of that name - via a valid index (length of the name's posting list) and via a scan:
+    stated as the length L of a strictly increasing enumeration src of exactly the matching storage positions"""
+    params = dict(self=MS)
+    ret = TInt
+    modifies = ()
+    raises = {"ReadFault": staticmethod(lambda c: dict(when=z3.BoolVal(True), exact=False))}
+    witness_sig = {"src": ([TInt], TInt)}
+    ghost_vars = ("gsrc",)
+    ghost_init = "gsrc = []"
+    ghost_after = [("count += 1", "gsrc.append(_t)")]
+    locals = dict(gsrc=TList(TInt))
+
+    @staticmethod
+    def requires(c):
+        return dbinv(c.self.t["_db"])
+
+    @staticmethod
+    def _spec(c, L, n, src):
+        items = c.self.t["_db"].t["_storage"].t["items"].t
+        nm = c.self.t["_name"].t
+        dummy = z3.Const(fresh_name("unused_list"), sort_of(TList(TInt)))
+        return [x for x in in_insertion_order(dummy, L, n, lambda i: dec(l_at(items, i)), Val(OStrU, o_none(OStrU)), lambda p: z3.IntVal(0), src, None, sel=name_only(nm), proj=lambda x: z3.IntVal(0))]
+
+    loops = {0: dict(inv=lambda c: [("ghost_len", z3.And(l_len(c.gsrc.t) == c.count.t, c.count.t >= 0))] + _ms_len._spec(c, c.count.t, c.loop(0).t, lambda a: l_at(c.gsrc.t, a)))}
+
+    @staticmethod
+    def witness(c):
+        if "loop0:exit" in c.path:
+            return {"src": lambda a: l_at(c.gsrc.t, a)}
+        M = c.self.t["_db"].t["_index"].t["_measurements"].t
+        nm = c.self.t["_name"].t
+        return {"src": lambda a: l_at(z3.Select(d_val(M), nm), a)}
+
+    @staticmethod
+    def ensures(c):
+        return [("non_negative", c.result.t >= 0)] + _ms_len._spec(c, c.result.t, l_len(c.self.t["_db"].t["_storage"].t["items"].t), c.wit["src"])
+
+
+@contract("tinyflux.measurement.Measurement.all")
+class _ms_all(Contract):
+    """C07/C10: all() of a measurement returns exactly the stored points of that name, in storage order or stably time-sorted"""
+    params = dict(self=MS, sorted=TBool)
+    defaults = dict(sorted=lambda ex: mk_bool(True))
+    ret = LPt
+    modifies = ()
+    raises = {"ReadFault": staticmethod(lambda c: dict(when=z3.BoolVal(True), exact=False))}
+    witness_sig = {"src": ([TInt], TInt)}
+
+    @staticmethod
+    def requires(c):
+        return dbinv(c.self.t["_db"])
+
+    @staticmethod
+    def witness(c):
+        inner = c.ghost.get("wit:tinyflux.measurement.Measurement.__iter__") or {"src": z3.Function(fresh_name("no_witness"), z3.IntSort(), z3.IntSort())}
+        ls = c.ghost.get("last_sort")
+        if ls is not None and "if0:T" in c.path:
+            return {"src": lambda a: inner["src"](ls["pi"](a))}
+        return {"src": inner["src"]}
+
+    @staticmethod
+    def ensures(c):
+        R, src = c.result.t, c.wit["src"]
+        items = c.self.t["_db"].t["_storage"].t["items"].t
+        n = l_len(items)
+        nm = c.self.t["_name"].t
+        a, b, i = z3.Int(fresh_name("a")), z3.Int(fresh_name("b")), z3.Int(fresh_name("i"))
+        L = l_len(R)
+        return [
+            ("elements", forall([a], z3.Implies(z3.And(0 <= a, a < L), z3.And(0 <= src(a), src(a) < n, meas(dec(l_at(items, src(a)))) == nm, l_at(R, a) == dec(l_at(items, src(a))))), patterns=[l_at(R, a)])),
+            ("no_duplicates", forall([a, b], z3.Implies(z3.And(0 <= a, a < b, b < L), src(a) != src(b)), patterns=[z3.MultiPattern(src(a), src(b))])),
+            ("every_point_of_the_name", forall([i], z3.Implies(z3.And(0 <= i, i < n, S.Tr(i), meas(dec(l_at(items, i))) == nm), z3.Exists([a], z3.And(S.Tr(a), 0 <= a, a < L, src(a) == i), patterns=[S.Tr(a), src(a)])), patterns=[l_at(items, i)])),
+            ("order", z3.If(c.sorted.t, in_stable_time_order(R, src, L), in_storage_order(src, L))),
+        ]
